@@ -260,11 +260,14 @@ fn run_case(seed: u64, idx: u64) -> CaseOut {
                 let lines = last_frame_lines(&spy);
                 let ci = KEYS.iter().position(|k| *k == "custom").unwrap();
                 let want = format!("C<{pos}|{len:?}|t{}>", track.lock().unwrap().since_reset);
-                if lines.get(ci + printed).map(|l| l.trim_end()) != Some(want.as_str()) {
+                // (how the log line of a println reaches the terminal - write_line or write_str - is the library's
+                // business: in that frame the key's line is looked up by content, not by position)
+                let shown = if printed > 0 { lines.iter().any(|l| l.trim_end() == want) } else { lines.get(ci).map(|l| l.trim_end()) == Some(want.as_str()) };
+                if !shown {
                     return Err(viol(
                         "custom-key-out-of-step-with-bar",
                         vec!["custom".into(), "frame-painted-by-the-operation".into()],
-                        format!("the frame painted by {:?} shows the custom key as {:?}, the tracker's state after the operation is {want:?}", history.last(), lines.get(ci + printed)),
+                        format!("the frame painted by {:?} shows the custom key as {:?}, the tracker's state after the operation is {want:?}", history.last(), if printed > 0 { lines.iter().find(|l| l.starts_with("C<")) } else { lines.get(ci) }),
                         J::from(history.clone()),
                         replay.clone(),
                     ));
